@@ -106,7 +106,8 @@ def gen_opts(draw):
     return {"ns": ns, "prefix": draw(st.sampled_from(["xtce", "xtce", "x", "foo-1"])),
             "omit_defaults": draw(st.booleans()), "single_list": draw(st.booleans()),
             "reverse_points": draw(st.booleans()), "empty_unitset": draw(st.booleans()),
-            "int_values": draw(st.booleans())}
+            "int_values": draw(st.booleans()), "false_as_0": draw(st.booleans()),
+            "type_signed": draw(st.sampled_from([None, None, "match", "true", "false", "opposite"]))}
 
 
 @st.composite
